@@ -99,3 +99,17 @@ fn init_logging() {
         }
     }
 }
+
+// Verification hook H1 (guard: --cfg sccache_verif): re-exports of private modules for the
+// out-of-tree correspondence harness; no behaviour.
+#[cfg(sccache_verif)]
+pub mod verif {
+    pub use crate::cache::cache::*;
+    pub use crate::cache::disk::DiskCache;
+    pub use crate::cache::readonly::ReadOnlyStorage;
+    pub use crate::compiler::verif::*;
+    pub use crate::compiler::*;
+    pub use crate::jobserver::Client as JobClient;
+    pub use crate::mock_command::*;
+    pub use crate::protocol::*;
+}
